@@ -472,6 +472,8 @@ pub enum Op {
     Collect,
     /// adversarial: direct `WithdrawLiquidity {}` with a native coin attached (cw20-LP pool)
     WithdrawDirect { user: u8, denom: u8, amount: Uint128 },
+    /// adversarial: a cw20 Receive hook from the wrong place
+    ForgedHook { user: u8, via: u8, swap_hook: bool, amount: Uint128 },
 }
 
 #[derive(Clone, Debug, Serialize, Deserialize)]
@@ -499,6 +501,7 @@ fn op() -> BoxedStrategy<Op> {
         2 => (0u8..4, amt100(), amt100()).prop_map(|(user, a0, a1)| Op::ProvideThenWithdraw { user, a0, a1 }),
         1 => Just(Op::Collect),
         1 => (0u8..4, 0u8..3, prop_oneof![Just(1u128), Just(1000), gen::amount(1, 1u128 << 70)]).prop_map(|(user, denom, a)| Op::WithdrawDirect { user, denom, amount: Uint128::new(a) }),
+        1 => (0u8..4, prop_oneof![Just(0u8), Just(2u8)], any::<bool>(), prop_oneof![Just(1u128), Just(1000), gen::amount(1, 1u128 << 60)]).prop_map(|(user, via, swap_hook, a)| Op::ForgedHook { user, via, swap_hook: if via == 2 { true } else { swap_hook }, amount: Uint128::new(a) }),
     ]
     .boxed()
 }
@@ -758,6 +761,28 @@ impl Check for SsPoolHistory {
                 Op::Collect => {
                     let who = pw.user(3);
                     let _ = pw.collect(&who);
+                    before = pw.view().map_err(|e| Fail::new(format!("Pool query failed: {e}")))?;
+                }
+                Op::ForgedHook { user, via, swap_hook, amount } => {
+                    let usr = pw.user(*user);
+                    let lp_b = pw.lp_balance(&usr);
+                    let supply_b = before.total_share;
+                    let bals_b = [pw.w.bal(&pw.infos[0], &usr), pw.w.bal(&pw.infos[1], &usr)];
+                    if pw.forged_hook(&usr, *via, *swap_hook, amount.u128()).is_ok() {
+                        rec.class("hook_message_accepted");
+                        let lp_a = pw.lp_balance(&usr);
+                        let v = pw.view().map_err(|e| Fail::new(format!("Pool query failed: {e}")))?;
+                        let bals_a = [pw.w.bal(&pw.infos[0], &usr), pw.w.bal(&pw.infos[1], &usr)];
+                        ensure!(
+                            v.total_share >= supply_b || lp_b.saturating_sub(lp_a) >= supply_b - v.total_share,
+                            "step {step}: a cw20 hook (via {via}, swap hook {swap_hook}, amount {amount}) burnt LP nobody gave up: supply {supply_b} -> {}, sender's LP {lp_b} -> {lp_a}",
+                            v.total_share
+                        );
+                        ensure!(
+                            bals_a[0] <= bals_b[0] && bals_a[1] <= bals_b[1],
+                            "step {step}: a forged cw20 hook (via {via}, swap hook {swap_hook}, amount {amount}) paid the sender: {bals_b:?} -> {bals_a:?}"
+                        );
+                    }
                     before = pw.view().map_err(|e| Fail::new(format!("Pool query failed: {e}")))?;
                 }
                 Op::WithdrawDirect { user, denom, amount } => {
